@@ -29,6 +29,12 @@ def scenarios(ctx, thorough):
                                      {"a": "Answer", "tags": [12, 11, 13], "container": True, "gzip": [True, False, False], "n": 800}, {"a": "Drain"}, P(90)],
         "new-session-announces-salt": [P(90), {"a": "Push", "what": "new_session_newsalt"}, {"a": "Settle"}, P(91)],
     }
+    # the library's own file store under a resumed and under a fresh session: every adopted salt is in the file
+    for fresh in (False, True):
+        sid += 1
+        scs.append(S.mk(sid, "file-store-rotations", "salt",
+                        [P(90), {"a": "Rotate"}, P(91), {"a": "Drain"}, {"a": "Rotate"}, P(92), {"a": "Push", "what": "new_session_newsalt"}, {"a": "Settle"},
+                         P(93), {"a": "Settle"}], fresh=fresh, filestore=True))
     # the rejection is processed while the sender is still inside the send section
     for fresh in (False, True):
         sid += 1
